@@ -198,7 +198,7 @@ theorem checkGlobals_safe (gs : List GDef) (ss : List GSt) : Safe (checkGlobals 
         all_goals first | trivial | exact safe_rt
       · intro _ _; exact ih ss
 
-theorem assignValue_safe (h : HState) (i : Nat) (d : ArgDef) (v : Word) : Safe (assignValue h i d v) := by
+theorem assignValue_safe (h : HState) (i : Nat) (d : ArgDef) (v : Word) (b : Bool) : Safe (assignValue h i d v b) := by
   unfold assignValue
   apply Safe.bind (throwIf_safe _ _ se_rt); intro _ _
   apply Safe.bind (countValue_safe _ _ _); intro _ _
@@ -210,7 +210,7 @@ theorem handleIdentifiedArg_safe (cfg : Cfg) (h : HState) (i : Nat) (d : ArgDef)
   unfold handleIdentifiedArg
   apply Safe.bind (pendingIdentified_safe _ _); intro _ _
   apply Safe.bind (executeGlobals_safe _ _ _); intro _ _
-  apply Safe.bind (assignValue_safe _ _ _ _); intro _ _
+  apply Safe.bind (assignValue_safe _ _ _ _ _); intro _ _
   trivial
 
 theorem checkMandatoryCardinality_safe (ds : List ArgDef) (ss : List ArgSt) :
@@ -320,7 +320,7 @@ theorem evalSingleArgument_safe (cfg : Cfg) (h : HState) (ai : It) (hI : ai.Inv)
     · exact SafeIt.same hI hle _ _
   · dsimp only
     split
-    · apply SafeIt.bind (assignValue_safe _ _ _ _); intro _ _
+    · apply SafeIt.bind (assignValue_safe _ _ _ _ _); intro _ _
       exact SafeIt.same hI hle _ _
     · apply SafeIt.bind (findArg_safe _ _ _); intro found _
       cases found with
